@@ -473,3 +473,317 @@ theorem unquote_of_jsonDecode (body s : Bytes) (hv : validUtf8 body = true)
   exact dec_agree _ _ 0 s hv (by simp) h
 
 end Martian.InvocationStr
+
+/-! ### the JSON decoder reads back what the encoders (and `quoteString`) write -/
+namespace Martian.InvocationStr
+open Martian.Lexer (Bytes encodeRune hexByte hexVal runeError)
+open Martian.Format (Pend hexDigit escAscii escFFFD esc2028 esc2029 quoteFrom quoteString quoteBody
+  PendOK pendOut escAscii_len validFrom_succ runeWidth_E2 take2_eq hex_roundtrip encodeRune_ascii lt80_toNat)
+open Martian.ShellQuote (runeWidth validFrom validUtf8 runeWidth_cont ge80_not_special ok2 ok3 ok4)
+
+theorem dec_plain (g : Nat) (c : UInt8) (X : Bytes) (h5c : (c == 0x5C) = false)
+    (h22 : (c == 0x22) = false) (h20 : ¬ c < 0x20) (h80 : c < 0x80) :
+    jsonDecLoop (g + 1) (c :: X) 0 = (jsonDecLoop g X 0).map (c :: ·) := by
+  simp [jsonDecLoop, h5c, h22, h20, h80]
+
+theorem dec_esc (g : Nat) (c2 : UInt8) (Y X out : Bytes) (h : jsonEscape c2 Y = some (out, X)) :
+    jsonDecLoop (g + 1) (0x5C :: c2 :: Y) 0 = (jsonDecLoop g X 0).map (out ++ ·) := by
+  simp [jsonDecLoop, h]
+
+theorem dec_u00 (g : Nat) (b : UInt8) (X : Bytes) (hb : b < 0x80) :
+    jsonDecLoop (g + 1) (escU00 b ++ X) 0 = (jsonDecLoop g X 0).map (b :: ·) := by
+  have hlt : b.toNat < 128 := lt80_toNat hb
+  have h00 : hexByte 0x30 0x30 = some 0 := by decide
+  have hx : hexByte (hexDigit (b.toNat / 16)) (hexDigit (b.toNat % 16)) = some b.toNat := by
+    have : ∀ n, n < 128 → hexByte (hexDigit (n / 16)) (hexDigit (n % 16)) = some n := by decide
+    exact this _ hlt
+  have he : encodeRune b.toNat = [b] := by rw [encodeRune_ascii _ hlt]; simp
+  have hns : ¬ (0xD800 ≤ b.toNat) := by omega
+  have hgo : jsonEscape 0x75 (0x30 :: 0x30 :: hexDigit (b.toNat / 16) :: hexDigit (b.toNat % 16) :: X)
+      = some ([b], X) := by
+    simp [jsonEscape, getu4, hx, h00, he, hns]
+  simp only [escU00, List.cons_append, List.nil_append]
+  rw [dec_esc g 0x75 _ X [b] hgo]; rfl
+
+theorem dec_escAscii (g : Nat) (b : UInt8) (X : Bytes) (hb : b < 0x80) :
+    jsonDecLoop (g + 1) (escAscii b ++ X) 0 = (jsonDecLoop g X 0).map (b :: ·) := by
+  unfold escAscii
+  by_cases h1 : (b == 0x5C || b == 0x22) = true
+  · simp only [h1, ↓reduceIte, List.cons_append, List.nil_append]
+    simp only [Bool.or_eq_true, beq_iff_eq] at h1
+    rcases h1 with rfl | rfl
+    · rw [dec_esc g 0x5C X X [0x5C] (by simp [jsonEscape])]; rfl
+    · rw [dec_esc g 0x22 X X [0x22] (by simp [jsonEscape])]; rfl
+  · simp only [h1, Bool.false_eq_true, ↓reduceIte]
+    simp only [Bool.or_eq_true, not_or, Bool.not_eq_true] at h1
+    by_cases h2 : (0x20 : UInt8) ≤ b
+    · simp only [h2, ↓reduceIte, List.cons_append, List.nil_append]
+      have h20 : ¬ b < 0x20 := by
+        rw [UInt8.lt_iff_toNat_lt]; rw [UInt8.le_iff_toNat_le] at h2; omega
+      exact dec_plain g b X h1.1 h1.2 h20 hb
+    · simp only [h2, ↓reduceIte]
+      by_cases h8 : (b == 0x08) = true
+      · have := eq_of_beq h8; subst this
+        simp only [beq_self_eq_true, ↓reduceIte, List.cons_append, List.nil_append]
+        rw [dec_esc g 0x62 X X [0x08] (by simp [jsonEscape])]; rfl
+      · simp only [h8, Bool.false_eq_true, ↓reduceIte]
+        by_cases hc : (b == 0x0C) = true
+        · have := eq_of_beq hc; subst this
+          simp only [beq_self_eq_true, ↓reduceIte, List.cons_append, List.nil_append]
+          rw [dec_esc g 0x66 X X [0x0C] (by simp [jsonEscape])]; rfl
+        · simp only [hc, Bool.false_eq_true, ↓reduceIte]
+          by_cases ha : (b == 0x0A) = true
+          · have := eq_of_beq ha; subst this
+            simp only [beq_self_eq_true, ↓reduceIte, List.cons_append, List.nil_append]
+            rw [dec_esc g 0x6E X X [0x0A] (by simp [jsonEscape])]; rfl
+          · simp only [ha, Bool.false_eq_true, ↓reduceIte]
+            by_cases hd : (b == 0x0D) = true
+            · have := eq_of_beq hd; subst this
+              simp only [beq_self_eq_true, ↓reduceIte, List.cons_append, List.nil_append]
+              rw [dec_esc g 0x72 X X [0x0D] (by simp [jsonEscape])]; rfl
+            · simp only [hd, Bool.false_eq_true, ↓reduceIte]
+              by_cases h9 : (b == 0x09) = true
+              · have := eq_of_beq h9; subst this
+                simp only [beq_self_eq_true, ↓reduceIte, List.cons_append, List.nil_append]
+                rw [dec_esc g 0x74 X X [0x09] (by simp [jsonEscape])]; rfl
+              · simp only [h9, Bool.false_eq_true, ↓reduceIte]
+                exact dec_u00 g b X hb
+
+theorem dec_jsonEsc (html : Bool) (g : Nat) (b : UInt8) (X : Bytes) (hb : b < 0x80) :
+    jsonDecLoop (g + 1) (jsonEsc html b ++ X) 0 = (jsonDecLoop g X 0).map (b :: ·) := by
+  unfold jsonEsc
+  split
+  · exact dec_u00 g b X hb
+  · exact dec_escAscii g b X hb
+
+theorem dec_esc2028 (g : Nat) (X : Bytes) :
+    jsonDecLoop (g + 1) (esc2028 ++ X) 0 = (jsonDecLoop g X 0).map ([0xE2, 0x80, 0xA8] ++ ·) := by
+  have hgo : jsonEscape 0x75 (0x32 :: 0x30 :: 0x32 :: 0x38 :: X) = some ([0xE2, 0x80, 0xA8], X) := by
+    have h1 : hexByte 0x32 0x30 = some 0x20 := by decide
+    have h2 : hexByte 0x32 0x38 = some 0x28 := by decide
+    have he : encodeRune (0x28 + 0x20 * 256) = [0xE2, 0x80, 0xA8] := by decide
+    simp [jsonEscape, getu4, h1, h2, he]
+  simp only [esc2028, List.cons_append, List.nil_append]
+  exact dec_esc g 0x75 _ X _ hgo
+
+theorem dec_esc2029 (g : Nat) (X : Bytes) :
+    jsonDecLoop (g + 1) (esc2029 ++ X) 0 = (jsonDecLoop g X 0).map ([0xE2, 0x80, 0xA9] ++ ·) := by
+  have hgo : jsonEscape 0x75 (0x32 :: 0x30 :: 0x32 :: 0x39 :: X) = some ([0xE2, 0x80, 0xA9], X) := by
+    have h1 : hexByte 0x32 0x30 = some 0x20 := by decide
+    have h2 : hexByte 0x32 0x39 = some 0x29 := by decide
+    have he : encodeRune (0x29 + 0x20 * 256) = [0xE2, 0x80, 0xA9] := by decide
+    simp [jsonEscape, getu4, h1, h2, he]
+  simp only [esc2029, List.cons_append, List.nil_append]
+  exact dec_esc g 0x75 _ X _ hgo
+
+/-! `runeWidth` looks only at the bytes of the rune -/
+theorem runeWidth_2 (b b1 : UInt8) (Y : Bytes) (hb : ¬ b < 0x80) (h : ok2 b b1 = true) :
+    runeWidth (b :: b1 :: Y) = some 2 := by
+  rcases Y with _ | ⟨y0, _ | ⟨y1, Y⟩⟩ <;> simp [runeWidth, hb, h]
+
+theorem runeWidth_3 (b b1 b2 : UInt8) (Y : Bytes) (hb : ¬ b < 0x80) (h2 : ¬ ok2 b b1 = true)
+    (h : ok3 b b1 b2 = true) : runeWidth (b :: b1 :: b2 :: Y) = some 3 := by
+  rcases Y with _ | ⟨y0, Y⟩ <;> simp [runeWidth, hb, h2, h]
+
+theorem runeWidth_4 (b b1 b2 b3 : UInt8) (Y : Bytes) (hb : ¬ b < 0x80) (h2 : ¬ ok2 b b1 = true)
+    (h3 : ¬ ok3 b b1 b2 = true) (h : ok4 b b1 b2 b3 = true) :
+    runeWidth (b :: b1 :: b2 :: b3 :: Y) = some 4 := by
+  simp [runeWidth, hb, h2, h3, h]
+
+theorem runeWidth_enc (esc : UInt8 → Bytes) (b : UInt8) (r : Bytes) (w : Nat) (hb : ¬ b < 0x80)
+    (h : runeWidth (b :: r) = some w) :
+    runeWidth (b :: encFrom esc r (if w ≤ 1 then .none else .copy (w - 1))) = some w := by
+  rcases r with _ | ⟨b1, _ | ⟨b2, _ | ⟨b3, t⟩⟩⟩ <;> simp only [runeWidth, hb, if_false] at h
+  · cases h
+  · split at h
+    · rename_i h2; injection h with h; subst h
+      rw [show (if (2:Nat) ≤ 1 then Pend.none else Pend.copy (2 - 1)) = Pend.copy (0 + 1) from rfl]
+      simp only [encFrom]; exact runeWidth_2 _ _ _ hb h2
+    · cases h
+  · split at h
+    · rename_i h2; injection h with h; subst h
+      rw [show (if (2:Nat) ≤ 1 then Pend.none else Pend.copy (2 - 1)) = Pend.copy (0 + 1) from rfl]
+      simp only [encFrom]; exact runeWidth_2 _ _ _ hb h2
+    · split at h
+      · rename_i h2 h3; injection h with h; subst h
+        rw [show (if (3:Nat) ≤ 1 then Pend.none else Pend.copy (3 - 1)) = Pend.copy (1 + 1) from rfl]
+        simp only [encFrom, Nat.add_one_ne_zero, if_false]; exact runeWidth_3 _ _ _ _ hb h2 h3
+      · cases h
+  · split at h
+    · rename_i h2; injection h with h; subst h
+      rw [show (if (2:Nat) ≤ 1 then Pend.none else Pend.copy (2 - 1)) = Pend.copy (0 + 1) from rfl]
+      simp only [encFrom]; exact runeWidth_2 _ _ _ hb h2
+    · split at h
+      · rename_i h2 h3; injection h with h; subst h
+        rw [show (if (3:Nat) ≤ 1 then Pend.none else Pend.copy (3 - 1)) = Pend.copy (1 + 1) from rfl]
+        simp only [encFrom, Nat.add_one_ne_zero, if_false]; exact runeWidth_3 _ _ _ _ hb h2 h3
+      · split at h
+        · rename_i h2 h3 h4; injection h with h; subst h
+          rw [show (if (4:Nat) ≤ 1 then Pend.none else Pend.copy (4 - 1)) = Pend.copy (2 + 1) from rfl]
+          simp only [encFrom, Nat.add_one_ne_zero, if_false]; exact runeWidth_4 _ _ _ _ _ hb h2 h3 h4
+        · cases h
+
+
+/-- the decoder's pending-continuation count that goes with an encoder state -/
+def pendK : Pend → Nat
+  | .copy k => k
+  | _ => 0
+
+theorem dec_encFrom (esc : UInt8 → Bytes)
+    (hesc : ∀ (g : Nat) (b : UInt8) (X : Bytes), b < 0x80 →
+      jsonDecLoop (g + 1) (esc b ++ X) 0 = (jsonDecLoop g X 0).map (b :: ·))
+    (hlen : ∀ b, 1 ≤ (esc b).length) :
+    ∀ (s : List UInt8) (p : Pend) (g : Nat),
+    (encFrom esc s p).length < g → PendOK s p →
+    jsonDecLoop g (encFrom esc s p) (pendK p) = some (pendOut s p) := by
+  intro s
+  induction s with
+  | nil =>
+    intro p g hg _
+    obtain ⟨g', rfl⟩ : ∃ g', g = g' + 1 := ⟨g - 1, by omega⟩
+    cases p <;> simp [encFrom, jsonDecLoop, pendOut]
+  | cons b r ih =>
+    intro p g hg hp
+    have generic : validFrom (b :: r) 0 = true →
+        (encFrom esc (b :: r) p =
+          if b < 0x80 then esc b ++ encFrom esc r .none
+          else match runeWidth (b :: r) with
+            | some w =>
+              if b == 0xE2 && r.take 2 == [0x80, 0xA8] then esc2028 ++ encFrom esc r (.drop 2)
+              else if b == 0xE2 && r.take 2 == [0x80, 0xA9] then esc2029 ++ encFrom esc r (.drop 2)
+              else b :: encFrom esc r (if w ≤ 1 then .none else .copy (w - 1))
+            | none => escFFFD ++ encFrom esc r .none) →
+        pendOut (b :: r) p = b :: r →
+        jsonDecLoop g (encFrom esc (b :: r) p) 0 = some (b :: r) := by
+      intro hv hq _
+      rw [hq] at hg ⊢
+      obtain ⟨g', rfl⟩ : ∃ g', g = g' + 1 := ⟨g - 1, by omega⟩
+      by_cases hb : b < 0x80
+      · simp only [hb, ↓reduceIte] at hg ⊢
+        have hw : runeWidth (b :: r) = some 1 := by simp [runeWidth, hb]
+        simp only [validFrom, hw] at hv
+        rw [hesc g' b _ hb]
+        have hl := hlen b
+        have := ih .none g' (by simp only [List.length_append] at hg; omega) hv
+        simp only [pendK] at this
+        rw [this]
+        rfl
+      · simp only [hb, ↓reduceIte] at hg ⊢
+        simp only [validFrom] at hv
+        cases hw : runeWidth (b :: r) with
+        | none => simp [hw] at hv
+        | some w =>
+          simp only [hw] at hv hg ⊢
+          by_cases h28 : (b == 0xE2 && r.take 2 == [0x80, 0xA8]) = true
+          · simp only [h28, ↓reduceIte] at hg ⊢
+            simp only [Bool.and_eq_true] at h28
+            have hbe := eq_of_beq h28.1
+            obtain ⟨t, rfl⟩ := take2_eq h28.2
+            subst hbe
+            rw [runeWidth_E2 t 0xA8 (Or.inl rfl)] at hw
+            injection hw with hw; subst hw
+            rw [dec_esc2028 g' _]
+            have := ih (.drop 2) g' (by simp only [esc2028, List.length_append, List.length_cons, List.length_nil] at hg; omega) hv
+            simp only [pendK] at this
+            rw [this]
+            simp [pendOut]
+          · simp only [h28, Bool.false_eq_true, ↓reduceIte] at hg ⊢
+            by_cases h29 : (b == 0xE2 && r.take 2 == [0x80, 0xA9]) = true
+            · simp only [h29, ↓reduceIte] at hg ⊢
+              simp only [Bool.and_eq_true] at h29
+              have hbe := eq_of_beq h29.1
+              obtain ⟨t, rfl⟩ := take2_eq h29.2
+              subst hbe
+              rw [runeWidth_E2 t 0xA9 (Or.inr rfl)] at hw
+              injection hw with hw; subst hw
+              rw [dec_esc2029 g' _]
+              have := ih (.drop 2) g' (by simp only [esc2029, List.length_append, List.length_cons, List.length_nil] at hg; omega) hv
+              simp only [pendK] at this
+              rw [this]
+              simp [pendOut]
+            · simp only [h29, Bool.false_eq_true, ↓reduceIte] at hg ⊢
+              obtain ⟨h22, _, _, h5c⟩ := ge80_not_special b hb
+              have h20 : ¬ b < 0x20 := by
+                intro hh; apply hb
+                rw [UInt8.lt_iff_toNat_lt] at hh ⊢
+                have : (0x20 : UInt8).toNat = 32 := rfl
+                have : (0x80 : UInt8).toNat = 128 := rfl
+                omega
+              have hstep : jsonDecLoop (g' + 1)
+                  (b :: encFrom esc r (if w ≤ 1 then .none else .copy (w - 1))) 0 =
+                  (jsonDecLoop g' (encFrom esc r (if w ≤ 1 then .none else .copy (w - 1))) (w - 1)).map (b :: ·) := by
+                simp [jsonDecLoop, h5c, h22, h20, hb, runeWidth_enc esc b r w hb hw]
+              rw [hstep]
+              have hcont := runeWidth_cont b r w hb hw
+              by_cases hw1 : w ≤ 1
+              · simp only [hw1, ↓reduceIte] at hg ⊢
+                have hw0 : w - 1 = 0 := by omega
+                rw [hw0] at hv ⊢
+                have := ih .none g' (by simp only [List.length_cons] at hg; omega) hv
+                simp only [pendK] at this
+                rw [this]
+                rfl
+              · simp only [hw1, ↓reduceIte] at hg ⊢
+                have := ih (.copy (w - 1)) g' (by simp only [List.length_cons] at hg; omega) ⟨hv, hcont⟩
+                simp only [pendK] at this
+                rw [this]
+                rfl
+    cases p with
+    | none => exact generic hp rfl rfl
+    | copy k =>
+      cases k with
+      | zero => exact generic hp.1 rfl rfl
+      | succ k =>
+        obtain ⟨hv, hk⟩ := hp
+        rw [validFrom_succ] at hv
+        obtain ⟨g', rfl⟩ : ∃ g', g = g' + 1 := ⟨g - 1, by omega⟩
+        simp only [encFrom, pendK] at hg ⊢
+        simp only [jsonDecLoop]
+        have hk' : ∀ x ∈ r.take k, ¬ x < 0x80 := fun x hx => hk x (by simp [List.take_succ_cons, hx])
+        by_cases hk0 : k = 0
+        · subst hk0
+          simp only [↓reduceIte] at hg ⊢
+          have := ih .none g' (by simp only [List.length_cons] at hg; omega) hv
+          simp only [pendK] at this
+          rw [this]
+          rfl
+        · simp only [hk0, ↓reduceIte] at hg ⊢
+          have := ih (.copy k) g' (by simp only [List.length_cons] at hg; omega) ⟨hv, hk'⟩
+          simp only [pendK] at this
+          rw [this]
+          rfl
+    | drop k =>
+      cases k with
+      | zero => exact generic hp rfl (by simp [pendOut])
+      | succ k =>
+        have hv : validFrom r k = true := by rw [← validFrom_succ b r k]; exact hp
+        simp only [encFrom, pendK] at hg ⊢
+        by_cases hk0 : k = 0
+        · subst hk0
+          simp only [↓reduceIte] at hg ⊢
+          have := ih .none g hg hv
+          simp only [pendK] at this
+          rw [this]
+          simp [pendOut]
+        · simp only [hk0, ↓reduceIte] at hg ⊢
+          have := ih (.drop k) g hg hv
+          simp only [pendK] at this
+          rw [this]
+          simp [pendOut]
+
+/-- `encoding/json` reads back its own output (both HTML modes) -/
+theorem jsonDecode_jsonEncode (html : Bool) (s : Bytes) (h : validUtf8 s = true) :
+    jsonDecodeString (jsonEncodeString html s) = some s := by
+  have := dec_encFrom (jsonEsc html) (dec_jsonEsc html) (jsonEsc_len html) s .none
+    ((encFrom (jsonEsc html) s .none).length + 1) (by simp) h
+  simp [jsonDecodeString, jsonEncodeString, pendOut, pendK] at this ⊢
+  exact this
+
+/-- (b): the text `quoteString` writes (every string literal, map key and
+`MarshalJSON` of a `StringExp`) is decoded by a JSON reader to the string it
+was given. -/
+theorem jsonDecode_quoteString (s : Bytes) (h : validUtf8 s = true) :
+    jsonDecodeString (quoteString s) = some s := by
+  rw [← jsonEncode_false_eq]; exact jsonDecode_jsonEncode false s h
+
+end Martian.InvocationStr
